@@ -103,12 +103,13 @@ def build(spec):
             qc.add_measurement("M", targets=qubits_value(op["m"], op.get("tk")), classical_store=op["s"])
             continue
         t, c = qubits_value(op["t"], op.get("tk")), qubits_value(op["c"], op.get("ck"))
+        k = qubits_value(op.get("k"), op.get("kk"))
         if op.get("raw"):
             qc.add_gate(Gate(op["g"], targets=t, controls=c, arg_value=py_value(op["a"]),
-                             classical_controls=op.get("k")))
+                             classical_controls=k, classical_control_value=op.get("kv")))
         else:
             qc.add_gate(op["g"], targets=t, controls=c, arg_value=py_value(op["a"]),
-                        classical_controls=op.get("k"))
+                        classical_controls=k, classical_control_value=op.get("kv"))
     return qc
 
 
@@ -126,9 +127,9 @@ def tree_tables():
             e = qasm_tables.export_tables()
             names = {k for k, _ in e["name_map"]} | {k for k, _ in e["defns"]}
             _TREE[key] = {"names": names, "crash": [n for n in e["resolvable"] if n not in names],
-                          "containers": e["qubit_containers"]}
+                          "containers": e["qubit_containers"], "cctrl_len": e["cctrl_len"]}
         except Exception:
-            _TREE[key] = {"names": set(SHAPE) | set(LATE_SHAPE), "crash": [], "containers": True}
+            _TREE[key] = {"names": set(SHAPE) | set(LATE_SHAPE), "crash": [], "containers": True, "cctrl_len": True}
     return _TREE[key]
 
 
@@ -399,6 +400,50 @@ def qubit_kind_specs(rng, names=None):
     return out
 
 
+def conditioned_specs(rng, names=None):
+    """classically conditioned gates: every exportable gate conditioned on the WHOLE classical register of 1-3 bits with
+    EVERY value (and the default value), and on parts / permutations of the register.  The exporter may refuse them;
+    a text it emits must act like the circuit under every classical state (a Gate reads its FIRST classical control as
+    the MOST significant bit of classical_control_value; OpenQASM's `if(c==k)` reads c[0] as bit 0)."""
+    out = []
+    for g in (names or [n for n in library_names() if exportable(n)]):
+        nc, nt, ps = shape_of(g)
+        qs = list(range(nc + nt))
+        for c in (1, 2, 3):
+            whole = list(range(c))
+            conds = [(whole, v) for v in [None] + list(range(2 ** c))]
+            if c >= 2:
+                conds += [([0], 1), ([c - 1], 0), (whole[::-1], 1), (whole[::-1], 2 ** c - 2), ([1, 0], 2), ([0, c - 1], 1)]
+            for k, kv in conds:
+                op = make_gate(rng, g, 3, {g: (nc, nt, ps)}, qs)
+                op.pop("raw", None)
+                op.update(k=list(k), kv=kv)
+                out.append({"N": 3, "c": c, "ops": [op]})
+    # container / integer type of the classical controls (a tree whose Gate._to_qasm tests their LENGTH; on another tree
+    # a numpy array is the recorded finding: `[0]` as an array is falsy and the condition is dropped)
+    if tree_tables()["cctrl_len"]:
+        for g in (names or ["X", "CNOT", "CRX"]):
+            if not exportable(g):
+                continue
+            nc, nt, ps = shape_of(g)
+            for kk in QUBIT_KINDS:
+                for k in ([0], [1], [0, 1], []):
+                    if kk in ("int", "npint") and len(k) != 1:
+                        continue
+                    for raw in (False, True):
+                        op = make_gate(rng, g, 3, {g: (nc, nt, ps)}, list(range(nc + nt)))
+                        op.update(k=list(k), kk=kk, kv=None, raw=raw)
+                        out.append({"N": 3, "c": 2, "ops": [op]})
+    # inside a circuit, after measurements that set the bits
+    for c, kv in ((2, 1), (2, 2), (3, 3), (3, 6)):
+        ops = [{"g": "X", "t": [0], "c": None, "a": None, "k": None}] + \
+              [{"m": [i], "s": i} for i in range(c)] + \
+              [{"g": "X", "t": [2], "c": None, "a": None, "k": list(range(c)), "kv": kv},
+               {"g": "CNOT", "t": [1], "c": [2], "a": None, "k": None}]
+        out.append({"N": 3, "c": c, "ops": ops})
+    return out
+
+
 def in_class(spec):
     """the class of the property's positive part: exportable gates of the right shape on distinct
     in-range qubits with numeric parameters, measurements into existing classical bits"""
@@ -408,8 +453,14 @@ def in_class(spec):
             if not (len(op["m"]) == 1 and 0 <= op["m"][0] < N and op["s"] is not None and 0 <= op["s"] < spec["c"]):
                 return False
             continue
-        if not exportable(op["g"]) or op.get("k"):
+        if not exportable(op["g"]):
             return False
+        k = op.get("k")
+        if k:       # a classical condition: distinct bits of the register, a value that fits them (or the default)
+            kv = op.get("kv")
+            if len(set(k)) != len(k) or not all(0 <= b < spec["c"] for b in k) or \
+                    not (kv is None or 0 <= kv < 2 ** len(k)):
+                return False
         nc, nt, ps = shape_of(op["g"])
         qs = (op["c"] or []) + (op["t"] or [])
         if len(op["c"] or []) != nc or len(op["t"] or []) != nt or len(set(qs)) != len(qs) or \
@@ -423,6 +474,12 @@ def in_class(spec):
         if ps == "v3" and not (a is not None and "v" in a and len(a["v"]) == 3 and all(map(math.isfinite, a["v"]))):
             return False
     return True
+
+
+def conditioned(spec):
+    """some gate carries a (non-empty) classical condition: the exporter may refuse the circuit; what it does export
+    must act like the circuit under EVERY classical state"""
+    return any("g" in op and op.get("k") for op in spec["ops"])
 
 
 def has_nonexportable(spec):
@@ -451,26 +508,38 @@ def strict_number_texts(spec):
 
 # ---- the property on the real code -------------------------------------------------------------------
 def lib_segments(qc):
-    """[unitary of gates, (q, c), unitary, ...] using the library's own semantics"""
+    """[gates, (q, c), gates, ...]: the circuit split at its measurements"""
     QubitCircuit, Gate, Measurement, _ = _lib()
     out, cur = [], []
-
-    def flush():
-        sub = QubitCircuit(qc.N, num_cbits=qc.num_cbits)
-        sub.user_gates = qc.user_gates
-        for g in cur:
-            sub.add_gate(g)
-        out.append(sub.compute_unitary().full() if cur else np.eye(2 ** qc.N, dtype=complex))
-
     for g in qc.gates:
         if isinstance(g, Measurement):
-            flush()
+            out.append(cur)
             out.append((g.targets[0], g.classical_store))
             cur = []
         else:
             cur.append(g)
-    flush()
+    out.append(cur)
     return out
+
+
+def lib_unitary(qc, gates, cbits):
+    """unitary of a run of gates under one classical state, by the library's own semantics: the simulator decides
+    which classically controlled gates act (`CircuitSimulator.run(..., cbits=...)`)"""
+    QubitCircuit, Gate, Measurement, _ = _lib()
+    if not gates:
+        return np.eye(2 ** qc.N, dtype=complex)
+    if all(g.classical_controls is None for g in gates):
+        sub = QubitCircuit(qc.N, num_cbits=qc.num_cbits)
+        sub.user_gates = qc.user_gates
+        for g in gates:
+            sub.add_gate(g)
+        return sub.compute_unitary().full()
+    from props.c04 import sim_unitary
+    return sim_unitary(qc, gates, cbits)
+
+
+def classical_states(nc):
+    return list(itertools.product([0, 1], repeat=nc)) if nc else [()]
 
 
 def property_fails(spec, lenient_measure=False):
@@ -484,8 +553,9 @@ def property_fails(spec, lenient_measure=False):
         return True, "export crashes instead of refusing (%s)" % st
     if has_nonexportable(spec):
         return (st == "ok"), ("non-exportable gate exported" if st == "ok" else "refused (%s)" % st)
+    cond = conditioned(spec)
     if st != "ok":
-        if in_class(spec):
+        if in_class(spec) and not cond:
             return True, "circuit of exportable gates refused (%s)" % st
         return False, "refused (%s)" % st
     if not in_class(spec):
@@ -502,7 +572,7 @@ def property_fails(spec, lenient_measure=False):
         return True, "exported text is not valid OpenQASM 2.0 (%s); text=%r" % (e, text[-200:])
     # the circuit's own unitary is computed from the same circuit with its qubit arguments given as plain lists (the
     # container type is not part of the circuit's meaning; the simulator has its own requirements on it)
-    qc = build({**spec, "ops": [{k: v for k, v in op.items() if k not in ("tk", "ck")} for op in spec["ops"]]})
+    qc = build({**spec, "ops": [{k: v for k, v in op.items() if k not in ("tk", "ck", "kk")} for op in spec["ops"]]})
     N = spec["N"]
     if std.nq != N or (spec["c"] and std.nc != spec["c"]):
         return True, "register sizes differ"
@@ -510,13 +580,16 @@ def property_fails(spec, lenient_measure=False):
     got = qasm_std.segments(std.ops)
     if len(want) != len(got):
         return True, "number of measurements differs"
+    states = classical_states(spec["c"]) if cond else [tuple([0] * spec["c"])]
     for i, (w, g) in enumerate(zip(want, got)):
         if isinstance(w, tuple):
             if (g[2], g[3]) != w or g[1] is not None:
                 return True, f"measurement {i // 2}: exported text measures {g[2:]} instead of {w}"
         else:
-            if not qasm_std.phase_equal(qasm_std.segment_unitary(g, N, []), w):
-                return True, f"segment {i // 2}: the exported text denotes another unitary (standard semantics)"
+            for cb in states:
+                if not qasm_std.phase_equal(qasm_std.segment_unitary(g, N, list(cb)), lib_unitary(qc, w, cb)):
+                    return True, (f"segment {i // 2}: the exported text denotes another unitary (standard semantics)"
+                                  + (f" under the classical state c={list(cb)}" if cond else ""))
     try:
         with warnings.catch_warnings():
             warnings.simplefilter("ignore")
@@ -530,8 +603,11 @@ def property_fails(spec, lenient_measure=False):
         if isinstance(w, tuple):
             if g != w:
                 return True, f"re-import: measurement {i // 2} is {g}, expected {w}"
-        elif not qasm_std.phase_equal(g, w):
-            return True, f"re-import: segment {i // 2} has another unitary"
+        else:
+            for cb in states:
+                if not qasm_std.phase_equal(lib_unitary(back, g, cb), lib_unitary(qc, w, cb)):
+                    return True, (f"re-import: segment {i // 2} has another unitary"
+                                  + (f" under the classical state c={list(cb)}" if cond else ""))
     return False, "valid, same unitary and measurements, re-import agrees"
 
 
@@ -716,6 +792,8 @@ class C10(PropertyCheck):
                     specs.append({"N": 2, "c": c, "ops": [{"m": [q], "s": s if c else None}]})
         # every gate name of the library: exported or refused, never a crash
         specs += name_specs(rng)
+        # classically conditioned gates (whole register of 1-3 bits x every value, parts, permutations)
+        specs += conditioned_specs(rng)
         # container / integer type of controls and targets (only a tree whose `_qasm_str` normalises them is given
         # anything but lists of Python ints: the model's qubit lists stand for exactly those on other trees)
         if tree_tables()["containers"]:
@@ -741,7 +819,9 @@ class C10(PropertyCheck):
                          "empty mantissa, E) as string-valued parameters; every non-exportable gate alone and inside a "
                          "circuit; measurements; every gate name of GATE_CLASS_MAP / add_gate (own class and generic Gate object); "
                          "on a tree with fix C10-5: controls / targets as list, tuple, ndarray, list of numpy integers, bare "
-                         "int, bare numpy integer in every combination for every exportable gate" % len(PARAM_TEXTS))
+                         "int, bare numpy integer in every combination for every exportable gate; every exportable gate conditioned "
+                         "on the whole classical register of 1-3 bits with every value, and on parts / permutations of it"
+                         % len(PARAM_TEXTS))
         # random circuits
         n_rand = 15000 if ctx.thorough else 400
         specs = [random_circuit(rng, allow_nonexp=0.04) for _ in range(n_rand)]
@@ -823,6 +903,10 @@ class C10(PropertyCheck):
         for g in NON_EXPORTABLE:
             yield {"N": 3, "c": 0, "ops": [make_gate(rng, g, 3, NONEXP_SHAPE)]}
         tt = tree_tables()
+        cs = conditioned_specs(rng)
+        rng.shuffle(cs)
+        for spec in cs[: (len(cs) if (ctx.thorough or full) else 90)]:
+            yield spec
         for spec in name_specs(rng):
             yield spec
         if tt["containers"]:
@@ -851,7 +935,7 @@ class C10(PropertyCheck):
         bare = self._bare_exponent_excluded()
         for spec in self._search_stream(ctx):
             n += 1
-            if n > (3000 if ctx.thorough else 420):
+            if n > (4000 if ctx.thorough else 520):
                 return
             if not self._sweep_ok(spec, bare):
                 continue
